@@ -375,7 +375,7 @@ class Check:
         self.nviol = getattr(self, "nviol", 0) + 1
         if self.nviol > 12:
             return      # enough replays written; the count is still reported
-        d = os.path.join(VERIF, "replays", self.pid)
+        d = os.path.join(VERIF, "replays", self.pid) if os.path.realpath(REPO) == "/repo" else os.path.join("/var/tmp", "vp-replays-other-tree", self.pid)
         os.makedirs(d, exist_ok=True)
         replay = dict(replay)
         replay.setdefault("property", self.pid)
@@ -405,8 +405,11 @@ class Check:
             "wall_s": round(time.time() - self.t0, 2), "violations": getattr(self, "nviol", 0),
         }
         self.cov["known_findings_hit"] = self.known_hit
-        os.makedirs(os.path.join(VERIF, "evidence"), exist_ok=True)
-        with open(os.path.join(VERIF, "evidence", self.pid + ".json"), "w") as f:
+        # evidence describes runs against /repo itself; a run against another tree (VERIF_REPO, used to try seeded changes)
+        # writes its evidence and replays elsewhere
+        evdir = os.path.join(VERIF, "evidence") if os.path.realpath(REPO) == "/repo" else os.path.join("/var/tmp", "vp-evidence-other-tree")
+        os.makedirs(evdir, exist_ok=True)
+        with open(os.path.join(evdir, self.pid + ".json"), "w") as f:
             json.dump(ev, f, indent=1, default=str)
         seen = set()
         for p, nf in self.violations:
